@@ -10,6 +10,7 @@ import (
 	"os"
 	"os/exec"
 	"path/filepath"
+	"reflect"
 	"runtime"
 	"strconv"
 	"strings"
@@ -17,6 +18,7 @@ import (
 	"sync/atomic"
 	"syscall"
 	"time"
+	"unsafe"
 
 	"go.uber.org/multierr"
 	"go.uber.org/zap/zapcore"
@@ -36,6 +38,9 @@ import (
 //        phase 1: one goroutine per program plus a ticker goroutine; phase 2: K goroutines call Stop at once.
 //        The whole program is run R times (≥1) on fresh syncers — schedules differ — and the first failing run is reported.
 //        → {"bytes":…,"records":…}       (what reached the sink after the final Stop+Sync)
+//   {"k":"tickrace","size":S,"slow":µs,"pre":n,"big":m}   a tick that arrives while a writer holds the mutex inside a
+//        slow sink write (a Write of m > S bytes after n buffered ones): the tick must still be processed — queued
+//        behind the writer — i.e. the sink is synced after that write and nothing stays buffered   (oracle only)
 //   {"k":"crash","size":S,"seed":…,"interval_us":…,"kill_us":…}   child process writing records through a
 //        BufferedWriteSyncer over a file, Sync acknowledgements on its stdout, SIGKILL after kill_us   (oracle only)
 
@@ -55,6 +60,8 @@ type c12Op struct {
 	Ticks    int        `json:"ticks"`
 	Stoppers int        `json:"stoppers"`
 	Rep      int        `json:"rep"`
+	Pre      int        `json:"pre"`
+	Big      int        `json:"big"`
 	Seed     uint64     `json:"seed"`
 	Interval int        `json:"interval_us"`
 	Kill     int        `json:"kill_us"`
@@ -87,6 +94,14 @@ func (op c12Op) wire() any {
 			Stoppers int        `json:"stoppers"`
 			Rep      int        `json:"rep"`
 		}{op.K, op.Size, op.Slow, op.Progs, op.Ticks, op.Stoppers, op.Rep}
+	case "tickrace":
+		return struct {
+			K    string `json:"k"`
+			Size int    `json:"size"`
+			Slow int    `json:"slow"`
+			Pre  int    `json:"pre"`
+			Big  int    `json:"big"`
+		}{op.K, op.Size, op.Slow, op.Pre, op.Big}
 	case "crash":
 		return struct {
 			K        string `json:"k"`
@@ -310,6 +325,16 @@ func c12Gen(r *Rand, tier string, emit func(op any)) {
 		emitOp(op)
 	}
 
+	// 4b. a tick arriving while a writer is inside a slow sink write
+	nRace := 12
+	if thorough {
+		nRace = 200
+	}
+	for i := 0; i < nRace; i++ {
+		size := Pick(r, []int{8, 16, 64, 256})
+		emitOp(c12Op{K: "tickrace", Size: size, Slow: Pick(r, []int{500, 1000, 3000}), Pre: 1 + r.Intn(size), Big: size + 1 + r.Intn(2*size)})
+	}
+
 	// 5. kill -9 of a writing process
 	nCrash := 6
 	if thorough {
@@ -349,6 +374,8 @@ type c12Sink struct {
 	overlap atomic.Bool
 	slow    time.Duration
 	taken   atomic.Int64
+	hookLen int // a Write of exactly this length announces itself on `entered` before it sleeps
+	entered chan struct{}
 }
 
 func newC12Sink(wo [][]int, so []int) *c12Sink {
@@ -360,6 +387,12 @@ func (s *c12Sink) Write(p []byte) (int, error) {
 		s.overlap.Store(true)
 	}
 	defer s.inCall.Add(-1)
+	if s.hookLen > 0 && len(p) == s.hookLen && s.entered != nil {
+		select {
+		case s.entered <- struct{}{}:
+		default:
+		}
+	}
 	if s.slow > 0 {
 		time.Sleep(s.slow)
 	}
@@ -492,37 +525,184 @@ func c12Watchdog() time.Duration {
 func c12NoteHang() {
 	c12Hung.Store(true)
 	c12Hangs.Add(1)
+	c12Why.Store("the watchdog expired")
 }
 
-// c12Call runs f under a watchdog; false = it did not return
+func c12NoteParked() {
+	c12Hung.Store(true)
+	c12Hangs.Add(1)
+	c12Why.Store("every goroutine of the process is parked on a channel or mutex (deadlock)")
+}
+
+// c12Base is the number of goroutines when the current op started
+var c12Base atomic.Int64
+
+var c12Why atomic.Value
+
+func c12HangWhy() string {
+	if w, ok := c12Why.Load().(string); ok {
+		return w
+	}
+	return "?"
+}
+
+// c12Dead is the result of a sequential history in which a call blocked; the flush goroutine of the syncer is ended
+// (best effort) so that it does not stay behind
+func c12Dead(b *zapcore.BufferedWriteSyncer, i int, what, how string) Result {
+	c12Reap(b)
+	return Result{Impl: map[string]any{"deadlock": i}, Oracle: bad("C12:deadlock", "%s (op %d) %s: %s", what, i, how, c12HangWhy()), Nontrivial: true, Shape: "seq/deadlock"}
+}
+
+// c12Call runs f under a watchdog; false = it did not return.
+//
+// Waiting out the full watchdog for every blocked call makes a run over a deadlocking implementation take hours, so the
+// wait also ends as soon as a deadlock is certain: an atomic snapshot of all goroutines (runtime.Stack stops the
+// world) in which every goroutine except this one is parked on a channel, a select without timer, a mutex or a
+// WaitGroup. Nothing in an op can wake such a process up again — the harness uses no timers inside an op except
+// time.Sleep in slow sinks (state "sleep", not parked) and the watchdog below (this goroutine) — so this is the
+// runtime's "all goroutines are asleep" made tolerant of the watchdog. Two consecutive snapshots are required.
 func c12Call(f func()) bool {
 	done := make(chan struct{})
-	go func() { defer close(done); f() }()
-	select {
-	case <-done:
-		return true
-	case <-time.After(c12Watchdog()):
-		c12NoteHang()
-		return false
+	c12Work(func() { defer close(done); f() })
+	deadline := time.NewTimer(c12Watchdog())
+	defer deadline.Stop()
+	poll := 2 * time.Millisecond
+	parked := 0
+	for {
+		select {
+		case <-done:
+			return true
+		case <-deadline.C:
+			c12NoteHang()
+			return false
+		case <-time.After(poll):
+		}
+		if poll < 20*time.Millisecond {
+			poll *= 2 // a call that returns at once is never delayed; a long one is sampled every 20 ms
+		}
+		if c12AllParked() {
+			parked++
+			if parked >= 2 {
+				select {
+				case <-done: // it returned between the snapshot and now
+					return true
+				default:
+				}
+				c12NoteParked()
+				return false
+			}
+		} else {
+			parked = 0
+		}
 	}
 }
 
-// c12LoopState returns the scheduler state of the flushLoop goroutine ("select", "running", "sync.Mutex.Lock", …) or
-// "" when there is none. With several such goroutines (leaked ones) the first not in "select" wins.
+// c12Work runs g on a long-lived worker goroutine (a worker stuck in a blocked call is replaced by a new one), so that
+// sequential histories create no short-lived goroutines: the count-based fast path of c12LoopAlive stays exact
+var c12Jobs = make(chan func())
+var c12Workers atomic.Int32
+
+func c12Work(g func()) {
+	for {
+		select {
+		case c12Jobs <- g:
+			return
+		default:
+		}
+		if c12Workers.Load() > 0 {
+			select { // an idle worker may be a few instructions short of its receive
+			case c12Jobs <- g:
+				return
+			case <-time.After(500 * time.Microsecond):
+			}
+		}
+		// no idle worker: start one (the first call, or all workers are stuck in blocked calls)
+		c12Workers.Add(1)
+		go func() {
+			for job := range c12Jobs {
+				job()
+			}
+		}()
+	}
+}
+
+// c12AllParked: every goroutine but the caller is parked for good (see c12Call)
+func c12AllParked() bool {
+	c12StackMu.Lock()
+	defer c12StackMu.Unlock()
+	n := c12Snapshot()
+	gs := bytes.Split(c12StackBuf[:n], []byte("\n\n"))
+	if len(gs) < 2 {
+		return false
+	}
+	for i, g := range gs {
+		if i == 0 {
+			continue // the first block is the calling goroutine
+		}
+		hdr := g
+		if j := bytes.IndexByte(g, '\n'); j >= 0 {
+			hdr = g[:j]
+		}
+		a, b := bytes.IndexByte(hdr, '['), bytes.IndexByte(hdr, ']')
+		if a < 0 || b < a {
+			return false // truncated or unreadable: no verdict
+		}
+		st := string(hdr[a+1 : b])
+		if k := strings.IndexByte(st, ','); k >= 0 {
+			st = st[:k]
+		}
+		switch st {
+		case "chan receive", "chan send", "select", "sync.Mutex.Lock", "sync.RWMutex.Lock", "sync.RWMutex.RLock",
+			"semacquire", "sync.WaitGroup.Wait", "sync.Cond.Wait", "chan receive (nil chan)", "chan send (nil chan)", "select (no cases)":
+			// a select may contain a timer case only in harness code that runs on the calling goroutine
+		default:
+			return false // running, runnable, sleep, IO wait, syscall, …: somebody can still move
+		}
+	}
+	return true
+}
+
+// c12Snapshot dumps all goroutines into c12StackBuf (grown until the dump fits); c12StackMu must be held
+func c12Snapshot() int {
+	for {
+		n := runtime.Stack(c12StackBuf, true)
+		if n < len(c12StackBuf) || len(c12StackBuf) >= 1<<26 {
+			return n
+		}
+		c12StackBuf = make([]byte, 2*len(c12StackBuf))
+	}
+}
+
+// c12LoopState returns the scheduler state of the flushLoop goroutine of syncer b ("select", "running",
+// "sync.Mutex.Lock", …) or "" when it has none. The goroutine is recognised by the receiver pointer the traceback
+// prints in its flushLoop frame, so that goroutines left behind by earlier ops on other syncers (a blocked Stop keeps
+// its loop) are not mistaken for this one; only when the traceback shows no pointers at all does every flushLoop
+// goroutine count (then the first one not in "select" wins).
 var (
 	c12StackMu  sync.Mutex
 	c12StackBuf = make([]byte, 1<<18)
 )
 
-func c12LoopState() string {
+func c12LoopState(b *zapcore.BufferedWriteSyncer) string {
 	c12StackMu.Lock()
 	defer c12StackMu.Unlock()
+	n := c12Snapshot()
 	buf := c12StackBuf
-	n := runtime.Stack(buf, true)
 	state := ""
+	mine := []byte(fmt.Sprintf("BufferedWriteSyncer).flushLoop(%p", b))
+	byPtr := bytes.Contains(buf[:n], []byte("BufferedWriteSyncer).flushLoop(0x"))
 	for _, g := range bytes.Split(buf[:n], []byte("\n\n")) {
 		if !bytes.Contains(g, []byte("BufferedWriteSyncer).flushLoop")) {
 			continue
+		}
+		if byPtr {
+			i := bytes.Index(g, mine)
+			if i < 0 {
+				continue
+			}
+			if rest := g[i+len(mine):]; len(rest) > 0 && (rest[0] >= '0' && rest[0] <= '9' || rest[0] >= 'a' && rest[0] <= 'f') {
+				continue // a longer address that merely starts with ours
+			}
 		}
 		hdr := g
 		if i := bytes.IndexByte(g, '\n'); i >= 0 {
@@ -555,12 +735,54 @@ func c12LoopState() string {
 	return state
 }
 
-// c12AwaitLoopIdle waits until the flush goroutine is parked in its select again (the tick it took has been processed)
-func c12AwaitLoopIdle() bool {
+// c12SendTick hands the flush goroutine of b one tick; false = it never takes it (watchdog, or it is not in its select
+// and every other goroutine is parked for good)
+func c12SendTick(clk *c12Clock, b *zapcore.BufferedWriteSyncer) bool {
 	deadline := time.Now().Add(c12Watchdog())
+	poll := 2 * time.Millisecond
+	parked := 0
 	for {
-		if st := c12LoopState(); st == "select" || st == "" {
+		select {
+		case clk.ch <- time.Unix(0, 0):
 			return true
+		case <-time.After(poll):
+		}
+		if poll < 20*time.Millisecond {
+			poll *= 2
+		}
+		if st := c12LoopState(b); st != "select" && c12AllParked() {
+			parked++
+			if parked >= 2 {
+				c12NoteParked()
+				return false
+			}
+		} else {
+			parked = 0
+		}
+		if time.Now().After(deadline) {
+			c12NoteHang()
+			return false
+		}
+	}
+}
+
+// c12AwaitLoopIdle waits until the flush goroutine is parked in its select again (the tick it took has been processed);
+// false = it never got there (watchdog, or every goroutine is parked for good while the loop is not in its select)
+func c12AwaitLoopIdle(b *zapcore.BufferedWriteSyncer) bool {
+	deadline := time.Now().Add(c12Watchdog())
+	parked := 0
+	for {
+		if st := c12LoopState(b); st == "select" || st == "" {
+			return true
+		}
+		if c12AllParked() {
+			parked++
+			if parked >= 2 {
+				c12NoteParked()
+				return false
+			}
+		} else {
+			parked = 0
 		}
 		if time.Now().After(deadline) {
 			c12NoteHang()
@@ -570,21 +792,27 @@ func c12AwaitLoopIdle() bool {
 	}
 }
 
-// c12LoopAlive reports whether any flushLoop goroutine is still running (polled for up to 2 s: after closing `done`
-// the goroutine needs a moment to exit, more on a loaded machine)
-func c12LoopAlive() bool {
-	c12StackMu.Lock()
-	defer c12StackMu.Unlock()
-	buf := c12StackBuf
-	wait := 2 * time.Second
-	if c12Hung.Load() || c12Leaked.Load() {
-		wait = 10 * time.Millisecond // a blocked or leaked loop is already on record: it will not go away
-	}
-	deadline := time.Now().Add(wait)
-	for {
-		n := runtime.Stack(buf, true)
-		if !bytes.Contains(buf[:n], []byte("BufferedWriteSyncer).flushLoop")) {
+// c12LoopAlive reports whether a flushLoop goroutine is still there after Stop has returned. In the code as written Stop
+// returns only after `done` was closed, i.e. when the goroutine is past its select and about to exit: a goroutine found
+// parked in the select of flushLoop after Stop is leaked for certain (verdict at once); one that is still running or
+// runnable gets up to 2 s to exit (more than enough on a loaded machine).
+func c12LoopAlive(b *zapcore.BufferedWriteSyncer) bool {
+	// fast path without a snapshot: no more goroutines than before this syncer existed (c12Base is taken when an op
+	// starts; helper goroutines of c12Call need a moment to exit)
+	for i := 0; i < 50; i++ {
+		if int64(runtime.NumGoroutine()) <= c12Base.Load() {
 			return false
+		}
+		runtime.Gosched()
+	}
+	deadline := time.Now().Add(2 * time.Second)
+	for {
+		switch st := c12LoopState(b); {
+		case st == "":
+			return false
+		case st == "select":
+			c12Leaked.Store(true)
+			return true
 		}
 		if time.Now().After(deadline) {
 			c12Leaked.Store(true)
@@ -592,6 +820,47 @@ func c12LoopAlive() bool {
 		}
 		time.Sleep(50 * time.Microsecond)
 	}
+}
+
+// c12Reap ends a flush goroutine the implementation left behind, after the verdict: it closes the syncer's unexported
+// `stop` channel (the only way to reach it), so that leaked goroutines do not pile up over thousands of ops and slow
+// every later goroutine snapshot down. Best effort: another field layout, or a channel that is already closed, is
+// simply left alone.
+func c12Reap(b *zapcore.BufferedWriteSyncer) {
+	defer func() { _ = recover() }()
+	f := reflect.ValueOf(b).Elem().FieldByName("stop")
+	if !f.IsValid() || f.Type() != reflect.TypeOf((chan struct{})(nil)) {
+		return
+	}
+	ch := *(*chan struct{})(unsafe.Pointer(f.UnsafeAddr()))
+	if ch == nil {
+		return
+	}
+	close(ch)
+	// let it exit before the next op counts its goroutines (c12Base)
+	for deadline := time.Now().Add(100 * time.Millisecond); time.Now().Before(deadline); {
+		if c12LoopState(b) == "" {
+			return
+		}
+		time.Sleep(50 * time.Microsecond)
+	}
+}
+
+// c12SettledGoroutines: the number of goroutines once helper goroutines of the previous op (a c12Call worker, the
+// goroutines of a concurrent program after wg.Wait) have finished exiting: yield until twenty consecutive readings
+// agree. An over-estimate could hide a goroutine leaked by the op that starts now from the count-based fast path
+// of c12LoopAlive.
+func c12SettledGoroutines() int64 {
+	n, same := runtime.NumGoroutine(), 0
+	for i := 0; i < 2000 && same < 20; i++ {
+		runtime.Gosched() // exiting goroutines are runnable: let them finish
+		if m := runtime.NumGoroutine(); m == n {
+			same++
+		} else {
+			n, same = m, 0
+		}
+	}
+	return int64(n)
 }
 
 func c12EvStrings(evs []c12Ev) []string {
@@ -605,6 +874,7 @@ func c12EvStrings(evs []c12Ev) []string {
 func c12Exec(raw json.RawMessage) Result {
 	var op c12Op
 	unmarshal(raw, &op)
+	c12Base.Store(c12SettledGoroutines())
 	switch op.K {
 	case "seq":
 		return c12Seq(op)
@@ -612,6 +882,8 @@ func c12Exec(raw json.RawMessage) Result {
 		return c12Bufio(op)
 	case "conc":
 		return c12Conc(op)
+	case "tickrace":
+		return c12TickRace(op)
 	case "crash":
 		return c12Crash(op)
 	}
@@ -656,7 +928,7 @@ func c12Seq(op c12Op) Result {
 			var n int
 			var err error
 			if !c12Call(func() { n, err = b.Write(caller) }) {
-				return Result{Impl: map[string]any{"deadlock": i}, Oracle: bad("C12:deadlock", "Write (op %d) did not return within %v", i, c12Watchdog()), Nontrivial: true, Shape: "seq/deadlock"}
+				return c12Dead(b, i, "Write", "did not return")
 			}
 			for j := range caller {
 				caller[j] = 0xEE // the caller may reuse its slice after Write returns
@@ -676,13 +948,13 @@ func c12Seq(op c12Op) Result {
 		case st.O == "s":
 			var err error
 			if !c12Call(func() { err = b.Sync() }) {
-				return Result{Impl: map[string]any{"deadlock": i}, Oracle: bad("C12:deadlock", "Sync (op %d) did not return within %v", i, c12Watchdog()), Nontrivial: true, Shape: "seq/deadlock"}
+				return c12Dead(b, i, "Sync", "did not return")
 			}
 			r["e"] = c12ErrKinds(err)
 		case st.O == "x":
 			var err error
 			if !c12Call(func() { err = b.Stop() }) {
-				return Result{Impl: map[string]any{"deadlock": i}, Oracle: bad("C12:deadlock", "Stop (op %d) did not return within %v", i, c12Watchdog()), Nontrivial: true, Shape: "seq/deadlock"}
+				return c12Dead(b, i, "Stop", "did not return")
 			}
 			r["e"] = c12ErrKinds(err)
 		case st.O == "t":
@@ -694,20 +966,26 @@ func c12Seq(op c12Op) Result {
 				select {
 				case clk.ch <- time.Unix(0, 0):
 					fail(bad("C12:loop-alive-after-stop", "op %d: a tick was received after Stop had returned", i))
-					c12AwaitLoopIdle()
+					c12AwaitLoopIdle(b)
 				case <-time.After(200 * time.Microsecond):
 				}
 				break
 			}
-			select {
-			case clk.ch <- time.Unix(0, 0):
-			case <-time.After(c12Watchdog()):
-				c12NoteHang()
-				return Result{Impl: map[string]any{"deadlock": i}, Oracle: bad("C12:deadlock", "the flush loop did not take a tick (op %d) within %v", i, c12Watchdog()), Nontrivial: true, Shape: "seq/deadlock"}
+			if !c12SendTick(clk, b) {
+				return c12Dead(b, i, "the flush loop", "did not take a tick")
 			}
-			// processed = the goroutine is parked in its select again (no reliance on the sink seeing a Sync)
-			if !c12AwaitLoopIdle() {
-				return Result{Impl: map[string]any{"deadlock": i}, Oracle: bad("C12:deadlock", "the flush loop did not finish processing a tick (op %d) within %v", i, c12Watchdog()), Nontrivial: true, Shape: "seq/deadlock"}
+			// processed: normally the sink sees the loop's Sync within microseconds (the events are recorded by then and
+			// the next operation serialises behind the mutex the loop still holds for an instant); if it does not —
+			// an implementation whose tick does not sync the sink — the goroutine is watched until it is parked in its
+			// select again, which needs a snapshot of all goroutines
+			signalled := false
+			select {
+			case <-sink.syncSig:
+				signalled = true
+			case <-time.After(2 * time.Millisecond):
+			}
+			if !signalled && !c12AwaitLoopIdle(b) {
+				return c12Dead(b, i, "the flush loop", "did not finish processing a tick")
 			}
 			tickProcessed = true
 		default:
@@ -781,7 +1059,7 @@ func c12Seq(op c12Op) Result {
 					c12CheckErrs(fail, i, "Stop", evs, r["e"].([]string))
 				}
 				stoppedOnce = true
-				if c12LoopAlive() {
+				if c12LoopAlive(b) {
 					fail(bad("C12:loop-alive-after-stop", "op %d: a flushLoop goroutine is still running after Stop returned", i))
 				}
 			}
@@ -789,6 +1067,9 @@ func c12Seq(op c12Op) Result {
 	}
 	if sink.overlap.Load() {
 		fail(bad("C12:sink-overlap", "two calls were inside the sink at once"))
+	}
+	if !o.OK && clk.made.Load() > 0 {
+		c12Reap(b) // whatever went wrong, do not leave the flush goroutine of this syncer behind
 	}
 	return Result{Impl: map[string]any{"steps": steps}, Oracle: o, Nontrivial: nW >= 2 && len(sunk) > 0 && nFlushOps > 0,
 		Shape: fmt.Sprintf("seq/size%d/w%d/fail=%v/stops=%v", bucket(eff), bucket(nW), !clean, stoppedOnce && len(op.Ops) > 0 && c12HasStop(op.Ops))}
@@ -1006,7 +1287,8 @@ func c12ConcOnce(op c12Op) Result {
 		_ = b.Sync()
 	}
 	if !c12Call(body) {
-		return Result{Impl: map[string]any{"deadlock": true}, Oracle: bad("C12:deadlock", "the concurrent program did not finish within %v", c12Watchdog()), Nontrivial: true, Shape: "conc/deadlock"}
+		c12Reap(b)
+		return Result{Impl: map[string]any{"deadlock": true}, Oracle: bad("C12:deadlock", "the concurrent program did not finish: %s", c12HangWhy()), Nontrivial: true, Shape: "conc/deadlock"}
 	}
 	evs := sink.since(0)
 	// the sink stream must parse into whole records, each exactly once, per goroutine in order; every sink write is whole records
@@ -1054,8 +1336,9 @@ func c12ConcOnce(op c12Op) Result {
 	if sink.overlap.Load() {
 		note("C12:sink-overlap", "two calls were inside the sink at once")
 	}
-	if clk.made.Load() > 0 && c12LoopAlive() {
+	if clk.made.Load() > 0 && c12LoopAlive(b) {
 		note("C12:loop-alive-after-stop", "a flushLoop goroutine is still running after Stop returned")
+		c12Reap(b)
 	}
 	o := ok()
 	for _, sig := range []string{"C12:stop-returned-before-flush", "C12:stream-corrupt", "C12:stream-order", "C12:split-write", "C12:stream-incomplete", "C12:sink-overlap", "C12:loop-alive-after-stop", "C12:conc-error"} {
@@ -1065,6 +1348,82 @@ func c12ConcOnce(op c12Op) Result {
 	}
 	return Result{Impl: map[string]any{"bytes": len(stream), "records": records}, Oracle: o, Nontrivial: len(op.Progs) >= 2 && records >= 2,
 		Shape: fmt.Sprintf("conc/g%d/stoppers%d/mixed=%v/slow=%v", bucket(len(op.Progs)), bucket(op.Stoppers), stopInPhase1, op.Slow > 0)}
+}
+
+// ---------------------------------------------------------------- a tick under contention
+
+func c12TickRace(op c12Op) Result {
+	if op.Size <= 0 || op.Pre <= 0 || op.Pre > op.Size || op.Big <= op.Size || op.Big > 1<<20 || op.Slow < 0 || op.Slow > 100000 {
+		return Result{Impl: map[string]any{"out_of_scope": true}, Oracle: ok(), NoModel: true, Shape: "tickrace/out-of-scope"}
+	}
+	sink := newC12Sink(nil, nil)
+	sink.slow = time.Duration(op.Slow) * time.Microsecond
+	sink.hookLen = op.Big
+	sink.entered = make(chan struct{}, 1)
+	clk := &c12Clock{ch: make(chan time.Time)}
+	b := &zapcore.BufferedWriteSyncer{WS: sink, Size: op.Size, FlushInterval: time.Hour, Clock: clk}
+	o := ok()
+	fail := func(or Oracle) {
+		if o.OK {
+			o = or
+		}
+	}
+	dead := func(what string) Result {
+		c12Reap(b)
+		return Result{Impl: map[string]any{"deadlock": true}, Oracle: bad("C12:deadlock", "%s: %s", what, c12HangWhy()), NoModel: true, Nontrivial: true, Shape: "tickrace/deadlock"}
+	}
+	pre, big := c12Record(0, 0, op.Pre), c12Record(1, 0, op.Big)
+	pre, big = pre[:op.Pre], big[:op.Big]
+	if !c12Call(func() { _, _ = b.Write(pre) }) {
+		return dead("the first Write did not return")
+	}
+	writerDone := make(chan struct{})
+	c12Work(func() { defer close(writerDone); _, _ = b.Write(big) })
+	select {
+	case <-sink.entered: // the writer is inside the sink, holding the syncer's mutex, for op.Slow µs
+	case <-time.After(c12Watchdog()):
+		c12NoteHang()
+		return dead("the big Write never reached the sink")
+	}
+	m := sink.mark()
+	if !c12SendTick(clk, b) {
+		return dead("the flush loop did not take the tick")
+	}
+	select {
+	case <-writerDone:
+	case <-time.After(c12Watchdog()):
+		c12NoteHang()
+		return dead("the big Write did not return")
+	}
+	if !c12AwaitLoopIdle(b) {
+		return dead("the flush loop did not finish processing the tick")
+	}
+	// the tick has been processed: its Sync must have reached the sink (after the write it queued behind) and all
+	// bytes accepted before the tick was taken — the first write — must be in the sink
+	evs := sink.since(m)
+	synced := false
+	for _, e := range evs {
+		if e.sync {
+			synced = true
+		}
+	}
+	if !synced {
+		fail(bad("C12:tick-not-synced", "a tick taken while a writer held the mutex (inside a %d µs sink write) was dropped: no WS.Sync followed", op.Slow))
+	}
+	if got := sink.taken.Load(); got < int64(op.Pre) {
+		fail(bad("C12:tick-not-flushed", "after a tick under contention only %d of the %d bytes accepted before it are in the sink", got, op.Pre))
+	}
+	if !c12Call(func() { _ = b.Stop() }) {
+		return dead("Stop did not return")
+	}
+	if c12LoopAlive(b) {
+		fail(bad("C12:loop-alive-after-stop", "a flushLoop goroutine is still running after Stop returned"))
+		c12Reap(b)
+	}
+	if got := sink.taken.Load(); got != int64(op.Pre+op.Big) {
+		fail(bad("C12:stream-incomplete", "after Stop the sink holds %d bytes, %d were accepted", got, op.Pre+op.Big))
+	}
+	return Result{Impl: map[string]any{"ok": o.OK}, Oracle: o, NoModel: true, Nontrivial: true, Shape: fmt.Sprintf("tickrace/size%d", bucket(op.Size))}
 }
 
 // ---------------------------------------------------------------- kill -9
